@@ -217,6 +217,7 @@ func (m *Manager) manageReader() {
 	var pkt drpcwire.Packet
 	var err error
 	var run int
+	var invoked uint64 // largest stream id that an invoke has been forwarded for
 
 	for !m.sigs.term.IsSet() {
 		// if we have a run of "small" packets, drop the buffer to release
@@ -263,6 +264,10 @@ func (m *Manager) manageReader() {
 				curr.Cancel(context.Canceled)
 			}
 
+			if pkt.Kind == drpcwire.KindInvoke {
+				invoked = pkt.ID.Stream
+			}
+
 			select {
 			case m.pkts <- pkt:
 				m.pdone.Recv()
@@ -277,6 +282,13 @@ func (m *Manager) manageReader() {
 		default:
 			if curr != nil && !curr.IsTerminated() {
 				curr.Cancel(context.Canceled)
+			}
+
+			// if no invoke has been forwarded for this stream id then no stream
+			// will ever be created for it (for example, the remote soft canceled
+			// before sending the invoke), so drop the packet instead of waiting.
+			if pkt.ID.Stream != invoked {
+				continue
 			}
 
 			if !m.sbuf.Wait(curr.ID()) {
